@@ -441,7 +441,7 @@ def c06_stream_clause(spec, acc):
     src_dec = NMEA2000Decoder()
     defs = [d for d in dbx.defs if d.encodable and d.type in ("Single", "Fast")]
     defs.sort(key=lambda d: (d.length if d.length is not None else 99, d.index))
-    for rep in range(6 if quick else 80):
+    for rep in range(6 if quick else 600):
         enc = NMEA2000Encoder()
         msgs = []
         packets = []
